@@ -8,7 +8,8 @@
 use crate::oracle::dir_of;
 use std::collections::BTreeMap;
 
-pub const KEYS: &[&str] = &["1", "2", "d/3", "d/4"];
+/// `dx` has `d` as a string prefix but is a different directory
+pub const KEYS: &[&str] = &["1", "2", "d/3", "d/4", "dx/5"];
 
 pub const PLACEMENTS: &[&str] = &[
     "block-ref", "block-ref-h2", "inline-para", "heading", "item", "nested-item", "emphasis", "quote", "quote-ref", "after-table",
